@@ -203,6 +203,14 @@ package main
 //@ func (*RuntimeState).unsealCA
 //@   atcall (*RuntimeState).loadSignersFromPemData requires (st *RuntimeState, signerPem []byte, ed25519Pem []byte) :: same(signerPem, pgpPlaintext(state.SSHCARawFileContent, password))  #C09.right-passphrase @C09
 //@   ensures ret0 == nil ==> state.Signer != nil                                   #C09.unsealed @C09
+// after unsealing the published key list contains the keys that sign (the list feeds /public/ and the JWKS)
+//@ func (*RuntimeState).signerPublicKeyToKeymasterKeys
+//@   requires state.Signer != nil
+//@   reveal keymasterKeyFP
+//@   ensures ret0 == nil ==> keymasterKeyFP(state, keyFP(signerPublic(state.Signer)))                                        #C09.signer-published @C09
+//@   ensures ret0 == nil && state.Ed25519Signer != nil ==> keymasterKeyFP(state, keyFP(signerPublic(state.Ed25519Signer)))     #C09.ed25519-published @C09
+//@   loop 1 (localSigners []crypto.Signer, rangeindex int) invariant (forall j int :: 0 <= j && j <= rangeindex ==> keymasterKeyFP(state, keyFP(signerPublic(localSigners[j]))))  #C09.publish-scan @C09
+//@   loop 2 (found bool, signerPKFingerprint string) invariant found ==> keymasterKeyFP(state, signerPKFingerprint)  #C09.publish-found @C09
 //@ func (*RuntimeState).secretInjectorHandler
 //@   atcall (*RuntimeState).unsealCA requires (st *RuntimeState, password []byte, clientName string) :: r.TLS != nil && len(r.TLS.VerifiedChains) >= 1  #C09.inject-needs-client-cert @C09
 //@ func (*RuntimeState).readyzHandler
